@@ -27,22 +27,26 @@ LEVEL = "exploration"
 TECHNIQUE = "bounded-exhaustive enumeration of sweep specifications and operand tuples against a list-semantics reference"
 RULE = (
     "single sweeps: every item dict with <=3 keys (a,b,c in that order) whose value lists come from the canonical set "
-    "{[], [0], [0,1], [0,0], [0,1,2], [1,0], [0,1,0]} (a subset of all lists of length 0..3 over {0,1,2} that keeps every "
-    "length, duplicates, a non-sorted list and a non-adjacent duplicate; thorough: all 40 lists for <=2 keys and 4 keys over "
-    "{[0],[0,1],[1,0],[0,0],[0,1,2]}); dims = None or every ordered set partition of every non-empty key subset (full and "
-    "partial dims), every order of the groups and of the names inside a group, singletons written all-bare or all-1-tuple; "
-    "constants {none, new key, key clashing with an item}; one deriver {none, new key = sum of the combination, overwriting "
-    "an item key}; exclude {none, first key == 0, sum odd, everything}. filtered_sweep: the same sweeps without constants/"
-    "exclude x deriver {none,new,overwrite} x every non-empty subset of the combination keys. product / + / MultiSweep / "
-    "combine: all pairs of zip-valid operands with <=2 keys each over disjoint names (plain), all pairs over a reduced pool "
-    "with the 27 local constants/deriver/exclude decorations per operand, triples of 1-key operands with the 27 decorations "
-    "each plus plain triples with zipped operands (thorough: triples with 2-key operands). count_sweep: five 2- and "
-    "3-function pipelines x every sweep over their root arguments, Sweep object and list, with and without pandas. "
-    "Zipped groups of unequal length are invalid input: executed once, outcome recorded, never flagged, never used as "
-    "operands. A case is distinct by its JSON form and counted non-trivial when it is zip-valid and: single - the groups span "
-    ">= 2 combinations, or exactly 1 and a decoration is present; product / + - every operand lists >= 1 combination and the "
-    "expected result has >= 2; filtered_sweep - the sweep lists >= 1 combination and the projection drops a key or merges "
-    "duplicates; count_sweep - the swept list is non-empty."
+    "{[], [0], [0,1], [0,0], [0,1,2], [1,0], [0,1,0]} (a subset of the 40 lists of length 0..3 over {0,1,2} that keeps every "
+    "length, duplicates, a non-sorted list and a non-adjacent duplicate; with 3 keys [0,1,0] is left to thorough); dims = None or every ordered set partition of "
+    "every non-empty key subset (full and partial dims), every order of the groups and of the names inside a group, "
+    "singletons written all-bare or all-1-tuple; constants {none, new key, key clashing with an item}; one deriver {none, new "
+    "key = sum of the combination, overwriting an item key}; exclude {none, first key == 0, sum odd, everything}; checked "
+    "through list(), iteration, add_derivers, len() and (undecorated / fully decorated) generate_sweep. filtered_sweep: the same sweeps without constants/"
+    "exclude x deriver {none, new, overwrite} x every non-empty subset of the combination keys. product / + / MultiSweep / "
+    "combine: all pairs of zip-valid undecorated operands with <=2 keys each over disjoint names, all pairs over a reduced "
+    "pool (lists [0,1]/[1,0]; dims None, zipped, reversed, partial) with the 27 local constants x deriver x exclude "
+    "decorations per operand, triples of 1-key operands with the 27 decorations each, undecorated triples with zipped / "
+    "partial / item-less operands. count_sweep: six 2- and 3-function pipelines x every sweep (full dims) over their root "
+    "arguments, as Sweep and as list, use_pandas False and (smaller alphabet) True. thorough adds: all 40 value lists for <=2 "
+    "keys (single, filtered_sweep); 3 keys over all 7 canonical lists; 4 keys over {[0],[0,1],[1,0],[0,1,2]} with each decoration alone and all together; "
+    "filtered_sweep with 4 keys over {[0,1],[0,0],[1,0]}, deriver {none, new}; triples with zipped / partial 2-key operands, "
+    "27 decorations on the middle and 8 on the outer operands. Zipped groups of unequal length are invalid input: executed "
+    "once, outcome recorded, never flagged, never used as operands. A case is distinct by its JSON form and counted "
+    "non-trivial when it is zip-valid and: single - the groups span >= 2 combinations, or exactly 1 and a decoration is "
+    "present; product / + - every operand lists >= 1 combination and the expected result has >= 2; filtered_sweep - the "
+    "sweep lists >= 1 combination and the projection drops a key or merges duplicates; count_sweep - the swept list is "
+    "non-empty."
 )
 ASSUMPTIONS = [
     "row-major order is demanded only when dims is omitted or lists its groups in item order; otherwise multiset equality",
@@ -53,7 +57,7 @@ ASSUMPTIONS = [
     "the operand lists' is well defined",
     "Pipeline.root_args is trusted for the ORDER of a root-argument tuple only (its set is checked)",
 ]
-BUDGET = {"quick": 60.0, "thorough": 600.0}
+BUDGET = {"quick": 120.0, "thorough": 900.0}  # caps, not expectations: ~10 s / ~80 s on 16 idle cores
 
 # ------------------------------------------------------------------------------------------------
 # named derivers / predicates (cases reference them by name)
@@ -73,9 +77,9 @@ for _k in NAMES:
 
 VL_CANON = [[], [0], [0, 1], [0, 0], [0, 1, 2], [1, 0], [0, 1, 0]]
 VL_FULL = [list(t) for n in range(4) for t in itertools.product((0, 1, 2), repeat=n)]
-VL_4 = [[0], [0, 1], [1, 0], [0, 0], [0, 1, 2]]
+VL_4 = [[0], [0, 1], [1, 0], [0, 1, 2]]
 VL_3 = [[0, 1], [0, 0], [1, 0]]
-ALPHA = {"canon": VL_CANON, "full": VL_FULL, "four": VL_4, "three": VL_3}
+ALPHA = {"canon": VL_CANON, "canon6": VL_CANON[:6], "full": VL_FULL, "four": VL_4, "three": VL_3}
 INVALID = "invalid-zip"
 
 
@@ -244,8 +248,9 @@ def eval_single(spec):
         s = build(spec)
     except Exception as e:  # noqa: BLE001
         return [(_exc(e, step="construct", **base_sig), f"{show(spec)} raised {e!r}")], True, "single:exception", strata
-    vias = [("list", lambda: s.list()), ("iter", lambda: [c for c in s]),  # noqa: C416
-            ("generate_sweep", lambda: generate_sweep({k: list(v) for k, v in spec["items"]}, s.dims, s.exclude, s.constants, s.derivers))]
+    vias = [("list", lambda: s.list()), ("iter", lambda: [c for c in s])]  # noqa: C416
+    if extras_tag(spec) in ("none", "cdx"):  # the positional wrapper: undecorated, and with all three decorations at once
+        vias.append(("generate_sweep", lambda: generate_sweep({k: list(v) for k, v in spec["items"]}, s.dims, s.exclude, s.constants, s.derivers)))
     if spec.get("deriv"):
         nod = dict(spec)
         nod.pop("deriv")
@@ -585,13 +590,15 @@ def single_extras(t, mode):
     return out
 
 
-def local_extras(t, names_suffix):
-    """decorations that read only the operand's own first combination key t"""
+def local_extras(t, names_suffix, reduced=False):
+    """decorations that read only the operand's own first combination key t (27, or 8 when reduced)"""
     if t is None:
         return [(None, None, None), ([["k" + names_suffix, 5]], None, None)]
     consts = [None, [["k" + t, 5]], [[t, 9]]]
-    derivs = [None, [["d" + t, f"inc_{t}"]], [[t, f"inc_{t}"]]]
+    derivs = [None, [[t, f"inc_{t}"]], [["d" + t, f"inc_{t}"]]]
     excls = [None, f"eq_{t}_0", "all"]
+    if reduced:
+        consts, derivs, excls = consts[:2], derivs[:2], excls[:2]
     return list(itertools.product(consts, derivs, excls))
 
 
@@ -636,10 +643,10 @@ def pool_small(names: tuple, level: int = 2):
 
 
 @functools.lru_cache(maxsize=None)
-def pool_decorated(names: tuple, level: int = 2, with_empty: bool = True):
+def pool_decorated(names: tuple, level: int = 2, with_empty: bool = True, reduced: bool = False):
     out = []
     for b in pool_small(names, level):
-        out += [decorate(b, *x) for x in local_extras(first_key(b), names[0])]
+        out += [decorate(b, *x) for x in local_extras(first_key(b), names[0], reduced)]
     if with_empty:
         b = {"items": [], "dims": None}
         out += [decorate(b, *x) for x in local_extras(None, names[0])]
@@ -654,18 +661,20 @@ def _rot(us, seed):
 def plan(tier, seed):
     stages = []  # (stage, [units])
     stages.append(("single<=2keys", [("single", nk, "canon", "all", 0, 1) for nk in (0, 1, 2)]))
-    stages.append(("single-3keys", [("single", 3, "canon", "all", c, 49) for c in range(49)]))
-    stages.append(("filtered<=3keys", [("filtered", nk, "canon", 0, 1) for nk in (1, 2)] + [("filtered", 3, "canon", c, 49) for c in range(49)]))
+    stages.append(("single-3keys", [("single", 3, "canon6", "all", c, 36) for c in range(36)]))
+    stages.append(("filtered<=3keys", [("filtered", nk, "canon", 0, 1) for nk in (1, 2)] + [("filtered", 3, "canon6", c, 36) for c in range(36)]))
     stages.append(("product-pairs-plain", [("prod2", "plain", c, 48) for c in range(48)]))
     stages.append(("product-pairs-decorated", [("prod2", "decorated", c, 16) for c in range(16)]))
     stages.append(("product-triples-1key", [("prod3", 0, c, 16) for c in range(16)] + [("prod3-plain", 1, 0, 1)]))
-    stages.append(("add", [("add2", c, 16) for c in range(16)] + [("add3", 0, 1)]))
+    stages.append(("add", [("add2", c, 8) for c in range(8)] + [("add3", 0, 1)]))
     stages.append(("count_sweep", [("count", name, False) for name in PIPE_SPECS] + [("count", name, True) for name in PIPE_SPECS]))
     if tier == "thorough":
+        stages.append(("single-3keys-7-lists", [("single", 3, "canon", "all", c, 49) for c in range(49)]))
+        stages.append(("filtered-3keys-7-lists", [("filtered", 3, "canon", c, 49) for c in range(49)]))
         stages.append(("single<=2keys-all-40-lists", [("single", 1, "full", "all", 0, 1)] + [("single", 2, "full", "all", c, 40) for c in range(40)]))
         stages.append(("filtered-2keys-all-40-lists", [("filtered", 2, "full", c, 40) for c in range(40)]))
-        stages.append(("product-triples-2keys", [("prod3", 1, c, 64) for c in range(64)] + [("prod3-plain", 2, 0, 1)]))
-        stages.append(("single-4keys", [("single", 4, "four", "one", c, 125) for c in range(125)]))
+        stages.append(("product-triples-2keys", [("prod3", 1, c, 40) for c in range(40)] + [("prod3-plain", 2, 0, 1)]))
+        stages.append(("single-4keys", [("single", 4, "four", "one", c, 128) for c in range(128)]))
         stages.append(("filtered-4keys", [("filtered", 4, "three", c, 81) for c in range(81)]))
     out = []
     for st, us in stages:
@@ -705,7 +714,7 @@ def run_unit(unit):  # noqa: C901, PLR0912, PLR0915
                 if not zip_valid(base):
                     continue
                 t = first_key(base)
-                for deriv in (None, [["d", "sum"]], [[t, "sum10"]]):
+                for deriv in (None, [["d", "sum"]], [[t, "sum10"]])[:2 if nk == 4 else 3]:
                     spec = decorate(base, None, deriv, None)
                     ck = flat_dims(base) + (["d"] if deriv and deriv[0][0] == "d" else [])
                     for r in range(1, len(ck) + 1):
@@ -724,7 +733,10 @@ def run_unit(unit):  # noqa: C901, PLR0912, PLR0915
         acc.sample({"op": "product", "ops": [left[-1 - c], right[-1]]})
     elif kind == "prod3":
         _, level, c, n = unit
-        p1, p2, p3 = (pool_decorated(nm, level, with_empty=False) for nm in (("a", "b"), ("c", "d"), ("e", "f")))
+        # level 0 (quick): 1-key operands, 27 decorations each; level 1 (thorough): 1- and 2-key operands (zipped / partial /
+        # plain), 27 decorations on the middle operand and 8 on the outer ones
+        p1, p2, p3 = (pool_decorated(nm, level, with_empty=False, reduced=(level > 0 and i != 1))
+                      for i, nm in enumerate((("a", "b"), ("c", "d"), ("e", "f"))))
         for s1 in p1[c::n]:
             for s2 in p2:
                 for s3 in p3:
@@ -739,8 +751,8 @@ def run_unit(unit):  # noqa: C901, PLR0912, PLR0915
                     do({"op": "product", "ops": [s1, s2, s3]})
     elif kind == "add2":
         _, c, n = unit
-        left = pool_decorated(("a", "b"))
-        right = pool_decorated(("c", "d")) + pool_small(("a", "b")) + pool_small(("b", "a"))
+        left = pool_decorated(("a", "b"), 1)
+        right = pool_decorated(("c", "d"), 1) + pool_small(("a", "b")) + pool_small(("b", "a"))
         for L in left[c::n]:
             for R in right:
                 do({"op": "add", "ops": [L, R]})
